@@ -1,6 +1,12 @@
-(* C04 over the language-chain pass models, continued: InlineObjectsWithTypes, RemoveIntersections,
-   and EXACT success conditions (an equation between "the pass returns schemas" and a decidable
-   predicate of the input) for DisjunctionWithNullToOptional and PrefixEnumValues. *)
+(* C04 over the language-chain pass models, continued.
+   WHAT IS HERE
+   - InlineObjectsWithTypes: iowt_exact / iowt_ok_or_fuel; RemoveIntersections: remove_intersections_no_panic;
+   - EXACT success conditions (an equation between "the pass returns schemas" and a decidable predicate of the
+     input): dwnto_exact / dwnto_panics_exactly, prefix_enum_values_exact, sanitize_exact (generic tools:
+     visit_disj_exact, mapM_exact, visit_schema_exact);
+   - DisjunctionInferMapping: dim_no_crash under dim_safe_schemas, and its three panics (dim_panics);
+   - DisjunctionOfConstantsToEnum: docte_ok_or_fuel (never an error; a panic only through a non-scalar enum
+     member; otherwise Ok or unbounded recursion), with docte_panics_or_diverges. *)
 From Coq Require Import List String Bool Ascii Lia.
 From Cog Require Import Model.IR Model.Names Model.Passes Model.PassesChain Model.Process Model.NF
      Proofs.TyInd Proofs.ChainLemmas Proofs.PassLemmas Proofs.ChainNFProofs Proofs.ChainTotalProofs Proofs.ChainPhpJavaProofs.
@@ -404,3 +410,39 @@ Example docte_panics_or_diverges :
   (enums_scalar w_docte_recursive = true /\ disjunction_of_constants_to_enum w_docte_recursive = OutOfFuel).
 Proof. repeat split; vm_compute; reflexivity. Qed.
 Local Close Scope string_scope.
+
+(* =====================================================================================
+   SanitizeEnumMemberNames: the EXACT success condition
+   ===================================================================================== *)
+Lemma senm_ty_exact : forall t inter, is_ok' (senm_ty t) = negb (any_sub p_senm_unsafe inter t).
+Proof.
+  assert (forall l inter, Forall (fun b => forall inter, is_ok' (senm_ty b) = negb (any_sub p_senm_unsafe inter b)) l ->
+            is_ok' (senm_list l) = negb (existsb (any_sub p_senm_unsafe inter) l)) as GL.
+  { induction l as [|b r IHr]; intros inter HF; [reflexivity|]. inversion HF as [|? ? Hb Hr]; subst. simpl.
+    rewrite is_ok_bind_eq, negb_orb, <- (Hb inter), <- (IHr inter Hr). destruct (senm_ty b) as [b'| | |]; simpl; try reflexivity.
+    rewrite is_ok_bind_eq. destruct (senm_list r); reflexivity. }
+  induction t as [a d IH|a v IH|a vs IH|a i v IHi IHv|a dh fs IHd IHf|a pk n|a pk n v|a k v cs|a bs IH|a v|a k]
+    using ty_ind'; intros inter; try reflexivity.
+  - rewrite senm_disj_eq, is_ok_bind_eq. simpl. specialize (GL _ inter IH). destruct (senm_list (d_branches d)); simpl in *; rewrite <- GL; reflexivity.
+  - simpl. rewrite is_ok_bind_eq. specialize (IH inter). destruct (senm_ty v); simpl in *; rewrite <- IH; reflexivity.
+  - simpl. rewrite is_ok_bind_eq, orb_false_r, negb_involutive.
+    assert (is_ok' (mapM senm_member vs) = forallb senm_safe vs) as E.
+    { rewrite mapM_exact. apply forallb_ext_in. intros m _. apply senm_member_exact. }
+    destruct (mapM senm_member vs); simpl in *; rewrite <- E; reflexivity.
+  - simpl. rewrite is_ok_bind_eq, negb_orb, <- (IHi inter), <- (IHv inter).
+    destruct (senm_ty i) as [i'| | |]; simpl; try reflexivity. rewrite is_ok_bind_eq. destruct (senm_ty v); reflexivity.
+  - rewrite senm_struct_eq, is_ok_bind_eq. simpl.
+    assert (is_ok' (senm_fields fs) = negb (existsb (fun f => any_sub p_senm_unsafe inter (f_type f)) fs)) as E.
+    { clear IHd. induction IHf as [|f r Hf _ IHr]; [reflexivity|]. simpl.
+      rewrite is_ok_bind_eq, negb_orb, <- (Hf inter), <- IHr. destruct (senm_ty (f_type f)) as [t'| | |]; simpl; try reflexivity.
+      rewrite is_ok_bind_eq. destruct (senm_fields r); reflexivity. }
+    destruct (senm_fields fs); simpl in *; rewrite <- E; reflexivity.
+  - rewrite senm_inter_eq, is_ok_bind_eq. simpl. specialize (GL _ true IH). destruct (senm_list bs); simpl in *; rewrite <- GL; reflexivity.
+Qed.
+
+Theorem sanitize_exact ss : is_ok' (sanitize_enum_member_names ss) = senm_safe_schemas ss.
+Proof.
+  unfold sanitize_enum_member_names, senm_safe_schemas.
+  change (@is_ok' schemas) with (@is_ok' (list schema)). rewrite mapM_exact. apply forallb_ext_in. intros s _.
+  rewrite visit_schema_exact. apply forallb_ext_in. intros t _. apply senm_ty_exact.
+Qed.
